@@ -1,13 +1,59 @@
+/-
+  Driver of C10.  The models of the proved families are evaluated through the correspondence-validated handlers of their
+  owners (C09 plurality / quota selector, C01 highest averages, C16 thresholds, C02 quota distributor / largest remainder).
+  The `PreConverted(converter, evaluator)` families are compositions (VotelibModel/PreConverted.lean) of the owners' models;
+  their profiles are decoded with the owners' decoders (`C13.pDict`, `C13.pBallot`, `C13.pApproval`, `C13.pScorer`,
+  `C05.evalByName`); PAV / SPAV / score voting are the models of C12 (`C12.getApproval`, `C12.getScoreProfile`, `C12.getCfg`).
+-/
 import VotelibDriver.C09
 import VotelibDriver.C01
 import VotelibDriver.C16
 import VotelibDriver.C02
+import VotelibDriver.C13
+import VotelibDriver.C05
+import VotelibDriver.C12
+import VotelibModel.PreConverted
 open Lean
 namespace VL.Drv.C10
-/-- the C10 driver evaluates the models of the proved families (owned by C09, C01, C16, C02, ...) through the
-    correspondence-validated handlers of their owners -/
+open VL VL.PreConv
+
+def own (op : String) (j : Json) : Option (Except String Json) :=
+  match op with
+  | "c10_positional" => some do
+    let p ← C13.pDict C13.pBallot (← j.getObjVal? "votes")
+    let sc ← C13.pScorer (← j.getObjVal? "scorer")
+    let n ← j.getObjValAs? Nat "n"
+    pure (exceptJson slotsJson (positionalRule sc p n))
+  | "c10_approval" => some do
+    let p ← C13.pDict C13.pApproval (← j.getObjVal? "votes")
+    let split ← j.getObjValAs? Bool "split"
+    let n ← j.getObjValAs? Nat "n"
+    pure (exceptJson slotsJson (approvalRule split p n))
+  | "c10_condorcet" => some do
+    let p ← C13.pDict C13.pBallot (← j.getObjVal? "votes")
+    let name ← j.getObjValAs? String "name"
+    let n ← j.getObjValAs? Nat "n"
+    match name with
+    | "winner" => pure (toJson (condorcetSeatless Condorcet.condorcetWinner p))
+    | "smith" => pure (toJson (condorcetSeatless Condorcet.smithSet p))
+    | "schwartz" => pure (toJson (condorcetSeatless Condorcet.schwartzSet p))
+    | _ =>
+      match condorcetRule (C05.evalByName name) p n with
+      | some r => pure (exceptJson slotsJson r)
+      | none => throw s!"unknown evaluator {name}"
+  | "c10_pav" => some do
+    let votes ← C12.getApproval j
+    let n ← j.getObjValAs? Nat "n"
+    pure (exceptJson slotsJson (Appr.pav votes n))
+  | "c10_score" => some do
+    let votes ← C12.getScoreProfile j
+    let cfg ← C12.getCfg j
+    let n ← j.getObjValAs? Nat "n"
+    pure (exceptJson slotsJson (Score.scoreVoting cfg votes n))
+  | _ => none
+
 def handlers : List (String → Json → Option (Except String Json)) :=
-  [C09.handle, C01.handle, C16.handle, C02.handle]
+  [own, C09.handle, C01.handle, C16.handle, C02.handle, C12.handle]
 
 def handle (op : String) (j : Json) : Option (Except String Json) :=
   handlers.firstM (fun h => h op j)
